@@ -9,6 +9,7 @@ import (
 	"math/rand"
 	"net/netip"
 	"time"
+	_ "time/tzdata" // zones with daylight saving for the interval checks, independent of the system
 
 	"github.com/ClickHouse/ch-go/proto"
 
@@ -382,9 +383,47 @@ func calendarMain(args []string) error {
 		}
 		c := randCivil(r, 1900, 2299)
 		c.Ns = randNs(r, 9)
+		if (sc.name == "day" || sc.name == "week") && i%3 == 0 {
+			// spans across the whole range of the temporal types (1900..2299 are 146 096 days)
+			c2 := randCivil(r, 1900, 2299)
+			d1 := time.Date(c.Y, time.Month(c.M), c.D, 0, 0, 0, 0, time.UTC).Unix() / 86400
+			d2 := time.Date(c2.Y, time.Month(c2.M), c2.D, 0, 0, 0, 0, time.UTC).Unix() / 86400
+			n = int(d2 - d1)
+			if sc.name == "week" {
+				n /= 7
+			}
+		}
 		var res time.Time
 		pan := safeStr(func() { res = proto.Interval{Scale: sc.s, Value: int64(n)}.Add(c.time()) })
 		tw.Emit(map[string]any{"ev": "Interval", "c": c, "scale": sc.name, "n": n, "back": civOf(res), "panic": pan})
+	}
+	// days and weeks in zones with daylight saving: the wall clock is kept (the days there have 23, 24 or 25 hours)
+	for zi, zn := range []string{"America/New_York", "Europe/Berlin", "Australia/Lord_Howe", "America/Sao_Paulo"} {
+		loc, err := time.LoadLocation(zn)
+		if err != nil {
+			continue
+		}
+		for i := 0; i < 1500**mult / *nshard; i++ {
+			y, m, d := 1970+r.Intn(68), 1+r.Intn(12), 1+r.Intn(28)
+			if i%4 == 0 {
+				m, d = []int{3, 10, 11, 4, 2}[r.Intn(5)], 1+r.Intn(28) // the months of the transitions
+			}
+			t := time.Date(y, time.Month(m), d, 12, r.Intn(60), r.Intn(60), 0, loc) // noon exists once in every zone
+			n := []int{1, -1, 2, 7, -7, 30, 180, -200, 365, r.Intn(4001) - 2000}[r.Intn(10)]
+			scale, gs := "day", proto.IntervalDay
+			if (i+zi)%3 == 0 {
+				scale, gs, n = "week", proto.IntervalWeek, n/7+1
+			}
+			var res time.Time
+			pan := safeStr(func() { res = proto.Interval{Scale: gs, Value: int64(n)}.Add(t) })
+			_, off1 := t.Zone()
+			_, off2 := res.Zone()
+			wall := func(x time.Time, off int) civ {
+				return civ{Y: x.Year(), M: int(x.Month()), D: x.Day(), H: x.Hour(), Mi: x.Minute(), S: x.Second(), Ns: x.Nanosecond(), Off: off}
+			}
+			tw.Emit(map[string]any{"ev": "IntervalZone", "zone": zn, "c": wall(t, off1), "scale": scale, "n": n, "back": wall(res, off2), "panic": pan,
+				"sameLoc": res.Location() == loc})
+		}
 	}
 	// (5) wide integers and addresses
 	nW := 20000 * *mult / *nshard
